@@ -26,6 +26,10 @@ theorem pyState_pending (s : State) (f : FutId) :
     (pyState s f != PyState.pending) = !decide ((s.futs f).st = .pending) := by
   unfold pyState; cases (s.futs f).st <;> simp <;> decide
 
+theorem pyState_beq_pending (s : State) (f : FutId) :
+    (pyState s f == PyState.pending) = decide ((s.futs f).st = .pending) := by
+  unfold pyState; cases (s.futs f).st <;> simp <;> decide
+
 @[simp] theorem pyState_eq_pending (s : State) (f : FutId) :
     (pyState s f = PyState.pending) ↔ (s.futs f).st = .pending := by
   unfold pyState; cases (s.futs f).st <;> simp
@@ -91,9 +95,9 @@ theorem cancel_eq (s : State) (f : FutId) :
     Future.cancel s f =
       .ok (if (s.futs f).st = .pending then (completeFut s f .cancelled, true) else (s, false)) := by
   unfold Future.cancel
-  simp only [foldl_callSoon, pyState_pending]
+  simp only [foldl_callSoon, pyState_pending, pyState_beq_pending]
   by_cases hp : (s.futs f).st = .pending
-  · simp only [hp, completeFut, if_true, decide_true, Bool.not_true, Bool.false_eq_true, if_false]
+  · simp only [hp, completeFut, reduceIte, decide_true, Bool.not_true, Bool.false_eq_true]
     have := tail_eq (setCancelled s f) f true
     simp only [setCallbacks, setFut] at this ⊢
     rw [this]
@@ -107,9 +111,9 @@ theorem setResult_eq (s : State) (f : FutId) :
     Future.setResult s f =
       if (s.futs f).st = .pending then .ok (completeFut s f .result, ()) else .error (.invalidState, s) := by
   unfold Future.setResult
-  simp only [foldl_callSoon, pyState_pending]
+  simp only [foldl_callSoon, pyState_pending, pyState_beq_pending]
   by_cases hp : (s.futs f).st = .pending
-  · simp only [hp, completeFut, if_true, decide_true, Bool.not_true, Bool.false_eq_true, if_false]
+  · simp only [hp, completeFut, reduceIte, decide_true, Bool.not_true, Bool.false_eq_true]
     have := tail_eq (setFinished s f false) f ()
     simp only [setCallbacks, setFut] at this ⊢
     rw [this]
@@ -123,9 +127,9 @@ theorem setException_eq (s : State) (f : FutId) :
     Future.setException s f =
       if (s.futs f).st = .pending then .ok (completeFut s f .exc, ()) else .error (.invalidState, s) := by
   unfold Future.setException
-  simp only [foldl_callSoon, pyState_pending]
+  simp only [foldl_callSoon, pyState_pending, pyState_beq_pending]
   by_cases hp : (s.futs f).st = .pending
-  · simp only [hp, completeFut, if_true, decide_true, Bool.not_true, Bool.false_eq_true, if_false]
+  · simp only [hp, completeFut, reduceIte, decide_true, Bool.not_true, Bool.false_eq_true]
     have := tail_eq (setFinished s f true) f ()
     simp only [setCallbacks, setFut] at this ⊢
     rw [this]
